@@ -44,6 +44,7 @@ def heldStep (s : Held × Bool) : Ev → Held × Bool
   | .ok t kind id => ((t, (kind, id)) :: s.1, s.2)
   | .relo t kind id => (s.1.erase (t, (kind, id)), s.2 && decide ((t, (kind, id)) ∈ s.1))
   | .dead _ _ _ => (s.1, false)   -- a holder that is still running must have its heartbeat
+  | .rnw t kind id => (s.1, s.2 && decide ((t, (kind, id)) ∈ s.1))   -- only a current holder renews (no heartbeat outlives its Release)
   | _ => s
 
 def heldReplay (tr : List Ev) : Held × Bool := tr.foldl heldStep ([], true)
